@@ -6,8 +6,8 @@ class_model("SearchResult", {"group": "HedGroup", "tags": "List[HedTag]"})
 contract("C15.search_result_init", file=Q, func="SearchResult.__init__",
          params={"self": "SearchResult", "group": "HedGroup", "tag": "List[HedTag]"}, returns=None, enc="native",
          modifies=["self.group", "self.tags"],
-         ensures={"C15.result.holds_group_and_a_copy_of_tags": "self.group == group and len(self.tags) == len(tag)"
-                                                               " and all_in(tag, lambda x: x in self.tags) and all_in(self.tags, lambda x: x in tag)"},
+         ensures={"C15.result.holds_group_and_a_copy_of_tags": "self.group is group and len(self.tags) == len(tag)"
+                                                               " and all_in(tag, lambda x: is_in(x, self.tags)) and all_in(self.tags, lambda x: is_in(x, tag))"},
          assume=["only the list form of the tag argument is covered (callers inside the query code pass lists or single tags)"])
 
 # C15 "A && B ... via distinct tags": the merged result holds the identity-union of both results' tags, nothing else,
@@ -17,14 +17,14 @@ contract("C15.merge_and_result", file=Q, func="SearchResult.merge_and_result",
          raises={"ValueError": "self.group != other.group"},
          locals={"new_tags": "List[HedTag]"},
          ensures={
-             "C15.and.union_of_tags_by_identity": "all_in(self.tags, lambda x: x in result.tags) and all_in(other.tags, lambda x: x in result.tags)",
-             "C15.and.nothing_else": "all_in(result.tags, lambda x: x in self.tags or x in other.tags)",
-             "C15.and.same_group": "result.group == self.group",
+             "C15.and.union_of_tags_by_identity": "all_in(self.tags, lambda x: is_in(x, result.tags)) and all_in(other.tags, lambda x: is_in(x, result.tags))",
+             "C15.and.nothing_else": "all_in(result.tags, lambda x: is_in(x, self.tags) or is_in(x, other.tags))",
+             "C15.and.same_group": "result.group is self.group",
          },
          loops={0: {"invariant": [
-             "all_in(self.tags, lambda x: x in new_tags)",
-             "all(other.tags[k] in new_tags for k in range(_n))",
-             "all_in(new_tags, lambda x: x in self.tags or x in other.tags)"]}})
+             "all_in(self.tags, lambda x: is_in(x, new_tags))",
+             "all(is_in(other.tags[k], new_tags) for k in range(_n))",
+             "all_in(new_tags, lambda x: is_in(x, self.tags) or is_in(x, other.tags))"]}})
 
 contract("C15.has_same_tags", file=Q, func="SearchResult.has_same_tags",
          params={"self": "SearchResult", "other": "SearchResult"}, returns="Bool", enc="native",
